@@ -1,5 +1,5 @@
 from .. import facts
-from ..rules import filt, sampling, codec
+from ..rules import opacity, filt, sampling, codec
 
 
 def run(ck):
@@ -13,3 +13,4 @@ def run(ck):
     sampling.r6_coordinate_siblings(ck, P)
     filt.r7_signed_totals(ck, P, 'C08-R7')
     filt.r8_coefficient_product_width(ck, P, 'C08-R8')
+    opacity.r6_outside_is_transparent(ck, P)    # C09-R6: REPEAT_NONE maps outside coordinates to transparent
